@@ -250,6 +250,7 @@ pub fn run_child(env: &WorkerEnv, bin: &str, spec: ChildSpec) -> Result<ChildRes
     for k in &spec.env_remove {
         cmd.env_remove(k);
     }
+    die_with_parent(&mut cmd);
     let mut child = cmd.spawn().map_err(|e| format!("spawn {}: {e}", exe.display()))?;
     let mut stdin = child.stdin.take();
     let input = spec.stdin.map(|b| b.to_vec());
@@ -296,6 +297,32 @@ pub fn run_child(env: &WorkerEnv, bin: &str, spec: ChildSpec) -> Result<ChildRes
         stdout,
         stderr,
     })
+}
+
+/// A child must not outlive the worker that started it (workers are killed on hangs).
+fn die_with_parent(cmd: &mut Command) {
+    use std::os::unix::process::CommandExt;
+    unsafe {
+        cmd.pre_exec(|| {
+            libc::prctl(libc::PR_SET_PDEATHSIG, libc::SIGKILL);
+            Ok(())
+        });
+    }
+}
+
+/// a loopback port for a server child of this worker process (per process, so that a
+/// dying predecessor on the same port cannot be mistaken for the new server)
+pub fn server_port() -> u16 {
+    30000 + (std::process::id() % 25000) as u16
+}
+
+/// worker index, from the name of its scratch directory (w<k>)
+pub fn worker_index(env: &WorkerEnv) -> u16 {
+    env.scratch
+        .file_name()
+        .and_then(|n| n.to_str())
+        .and_then(|n| n.trim_start_matches('w').parse().ok())
+        .unwrap_or(0)
 }
 
 // ------------------------------------------------------------------------------------------
@@ -382,15 +409,15 @@ pub struct ServerChild {
 impl ServerChild {
     pub fn start(env: &WorkerEnv, port: u16) -> Result<ServerChild, String> {
         let exe = env.bin_dir.join("svgdx-server");
-        let child = Command::new(&exe)
-            .args(["--port", &port.to_string()])
+        let mut cmd = Command::new(&exe);
+        cmd.args(["--port", &port.to_string()])
             .stdin(Stdio::null())
             .stdout(Stdio::null())
             .stderr(Stdio::null())
             .env("LD_PRELOAD", &env.seam_lib)
-            .env("VERIF_ENTROPY", "7")
-            .spawn()
-            .map_err(|e| format!("spawn server: {e}"))?;
+            .env("VERIF_ENTROPY", "7");
+        die_with_parent(&mut cmd);
+        let child = cmd.spawn().map_err(|e| format!("spawn server: {e}"))?;
         let mut s = ServerChild { child, port };
         // wait until it accepts connections
         let start = Instant::now();
@@ -399,6 +426,11 @@ impl ServerChild {
                 return Err("server exited at start (port busy?)".into());
             }
             if std::net::TcpStream::connect(("127.0.0.1", port)).is_ok() {
+                // make sure it is OUR child that is listening (not a dying predecessor)
+                std::thread::sleep(Duration::from_millis(30));
+                if let Ok(Some(_)) = s.child.try_wait() {
+                    return Err("server exited at start (port busy?)".into());
+                }
                 return Ok(s);
             }
             if start.elapsed() > Duration::from_secs(10) {
